@@ -340,6 +340,9 @@ def replay(st):
 
 # ---- an independent, minimal writer to the odML 1.1 layout ("another tool") ----
 def _txt(v):
+    import enum
+    if isinstance(v, enum.Enum):
+        return str(v.value)         # a dtype given as DType member: another tool writes the dtype's name
     if isinstance(v, (dt.datetime, dt.date, dt.time)):
         return str(v)
     return str(v)
@@ -404,7 +407,7 @@ def foreign_dict(doc):
         props = []
         for p in s.properties:
             pe = {"id": p.id, "name": p.name}
-            if p.dtype is not None: pe["type"] = p.dtype
+            if p.dtype is not None: pe["type"] = _txt(p.dtype)
             if p.dtype and p.dtype.endswith("-tuple") and p.values:
                 pe["value"] = "[" + ",".join("(" + ";".join(v) + ")" for v in p.values) + "]"
             else:
